@@ -1,5 +1,5 @@
 """C15 — grid files decode faithfully; damaged files are rejected rather than crashing."""
-import json, os, struct
+import json, os, re, struct
 import vlib, gridlib
 
 PROP = "C15"
@@ -26,21 +26,30 @@ DEVIATIONS = [
 
 RULE = ("TLC enumerates (file) and (file, fault) states. Files: Gravsoft grids of 1/2/3 bands (angular) and 1 band (projected), three "
         "geometries, four text layouts (separators, comments with digits, CRLF, one token per line, everything on one line); NTv2 files of "
-        "1-3 sub-grids in every order and both byte orders. Invariants: Decode(Encode(g, layout)) = g, independence of layout and sub-grid "
-        "order, and for every fault - every truncation length, every single-bit flip in header records / the header tokens, and the "
+        "1-3 sub-grids in every order and both byte orders; files whose header is spelled with exchanged bounds (south > north, west > east, "
+        "both; Gravsoft in every band count, NTv2 on the root and on a child): the admissible outcomes are an error or the grid of one reading "
+        "of the header, which reproduces the node values of the file at its nodes. Invariants: Decode(Encode(g, layout)) = g, independence of "
+        "layout and sub-grid order, and for every fault - the intact file, - every truncation length, every single-bit flip in header records / the header tokens, and the "
         "Corrupt(field, class) table (counts too large / small / zero / huge, NUM_OREC/NUM_SREC != 11, GS_COUNT mismatch, zero / NaN / inf / "
         "negative / tiny / huge increments and bounds, degenerate extents, non-UTF-8 and unknown names, missing NONE root, a sub-grid named "
         "NONE, self-parent) - that the documented decode rule yields Err or a queryable grid on every way the damaged file can look. Binding: "
         "the harness encoder is checked byte for byte against the specification's texts / records, files are decoded by BaseGrid::gravsoft / "
         "Ntv2Grid::new and read back through Grid::at at nodes and Grid::contains at borders; every enumerated fault (also on the shipped "
         "files: every truncation length, every bit of the header records / header line) is applied to the bytes, decoded and queried "
-        "(contains / at with margins 0, 0.5, 3 on a lattice plus NaN / inf / huge points, then gridshift or deformation forward and inverse) "
-        "under catch_unwind in a child process with a 2 GiB address-space limit and a stall watchdog. Non-trivial = well-formed files read "
+        "(contains / at with margins 0, 0.5, 3 on a lattice plus NaN / inf / huge points, then gridshift or deformation forward and inverse, "
+        "then contains / at with every margin class of the specification - 0, 0.5, -0.5, -2, NaN, inf - on a sub-lattice) "
+        "under catch_unwind in a child process with a 2 GiB address-space limit and a stall watchdog. The constructor both readers end in, "
+        "BaseGrid::plain(header, nodes, offset), is called with the specification's enumeration of node vectors and offsets (none, inside, beyond "
+        "the vector, the largest index; padded, cut and missing vectors): an error or a safely queryable grid, node values reproduced where the "
+        "grid starts at the offset. Non-trivial = well-formed files read "
         "back + faults whose outcome was not 'decodes and answers every query'.")
 
 ASSUMPTIONS = [
     "a damaged file may decode to any grid: only Err / safely queryable is required, never a particular value",
-    "Grid::at / contains with a NaN margin is not exercised (the margin is not part of the file or the point)",
+    "the margin of Grid::contains / at is an argument of the query like the point ('subsequent queries never panic'): every margin class (negative, NaN, infinite) must return; no particular answer is required for them",
+    "a header with exchanged bounds may be refused; if it decodes, the grid must be the file under one reading of the exchanged bounds (an unordered pair, or a scan from the bound written first); a non-root NTv2 sub-grid spelled this way is read back off its borders only",
+    "BaseGrid::plain is part of decoding (both readers end in it; it is the public way to hand over a decoded header and node vector): calls whose offset + size exceed the vector must give Err or a grid that never reads outside it; consistent calls may be refused",
+    "an extent that is no whole number of cells (Gravsoft class 'frac') is a damaged file: Err or any safely queryable grid",
     "the ASCII (.gsa) rendering is read by the harness's own reader (the library has none); compared for the two shipped pairs",
     "thorough: faults on the 2.8 MB deformation grid are enumerated by the driver (strided truncations at line / token boundaries, header bits), not by TLC",
 ]
@@ -100,6 +109,10 @@ def record_violations(res, rec, violating, known, source):
             continue
         cls = gridlib.panic_class(v.get("msg"))
         ft = v["fault"]
+        if v["what"] == "panic_margin":
+            # which margin classes made a query panic: negative ones, NaN
+            ms = re.findall(r"\[margin ([^\]]+)\]", v.get("msg") or "")
+            cls = "+".join(sorted({"NaN" if m == "NaN" else "negative" if m.startswith("-") else m for m in ms}))
         sig = "%s|%s|%s" % (rec["fmt"], v["what"], dev or cls)
         res.add_violation({"suite": "gridfile", "what": v["what"], "def": "%s: %s" % (name, json.dumps(ft)), "deviation": dev,
                            "observed": v.get("msg"), "expected": "Err, or a grid that answers every query", "fault": ft, "source": source,
@@ -154,9 +167,36 @@ def run(tier, seed):
     by_id = {x["id"]: x for x in gen}
     for f in wf_fails:
         rec = by_id.get(f["id"], {})
-        res.add_violation({"suite": "gridfile", "what": f["what"], "def": "well-formed %s %s layout %s" % (rec.get("fmt"), rec.get("kind"), rec.get("file", {}).get("text")),
-                           "detail": f, "behaviour": strip_case(rec) if rec else None, "wellformed": True,
+        res.add_violation({"suite": "gridfile", "what": f["what"], "def": "%s %s %s layout %s spelling %s" % ("spelled" if rec.get("spelled") else "well-formed", rec.get("fmt"), rec.get("kind"), rec.get("file", {}).get("text"), rec.get("file", {}).get("spell")),
+                           "detail": f, "behaviour": strip_case(rec) if rec else None, "wellformed": True, "expected": f.get("expected"), "observed": f.get("observed"),
                            "signature": "wf|%s|%s" % (rec.get("fmt"), f["what"])})
+    spelled = [x for x in gen if x.get("spelled")]
+    if not spelled or any(len(x["alts"]) < 2 for x in spelled):
+        raise vlib.ToolError("vacuous: no file with a spelled header (or one without alternative readings)")
+    decided = wsum["spelled_rejected"] + sum(wsum["spelled_read"].values()) + sum(1 for f in wf_fails if f["what"] in ("spelled_header_matches_no_reading", "panic_decode_spelled"))
+    if decided != len(spelled):
+        raise vlib.ToolError("spelled headers not all decided: %d of %d" % (decided, len(spelled)))
+    # 1b. the constructor both readers end in
+    pl = [x for x in gen if x.get("plain")]
+    if not pl:
+        raise vlib.ToolError("vacuous: no BaseGrid::plain calls exported")
+    pinp = os.path.join(gridlib.BEH, "C15-plain.ndjson")
+    poutp = os.path.join(gridlib.BEH, "C15-plain.out.ndjson")
+    vlib.write_ndjson(pinp, [{k: x[k] for k in x if k not in ("faults", "lines", "records", "alts")} for x in pl])
+    rc, out = vlib.gvh(["plain", pinp, poutp], bin=gridlib.BIN)
+    prow = vlib.read_ndjson(poutp)
+    psum = [x for x in prow if x.get("summary")][0]
+    if psum["calls"] == 0 or psum["err"] + psum["ok"] + sum(1 for x in prow if x.get("what") == "panic_plain") != psum["calls"]:
+        raise vlib.ToolError("BaseGrid::plain calls not all decided: %s" % psum)
+    for f in [x for x in prow if not x.get("summary")]:
+        rec = by_id.get(f["id"], {})
+        call = f.get("call", {})
+        cls = "none" if call.get("nodes") is None else "some"
+        res.add_violation({"suite": "gridfile", "what": f["what"], "def": "BaseGrid::plain(header %s, nodes %s, offset %s) for a grid of %s values" %
+                           (call.get("header"), call.get("nodes"), call.get("offset"), call.get("grid_elements")),
+                           "detail": f, "behaviour": strip_case(rec) if rec else None, "wellformed": True, "expected": f.get("expected"),
+                           "observed": (f.get("query") or {}).get("msg") or f.get("msg") or f.get("observed"),
+                           "signature": "plain|%s|nodes=%s|%s" % (f["what"], cls, gridlib.panic_class((f.get("query") or {}).get("msg") or f.get("msg") or ""))})
     # 2. shipped binary files against their ASCII twins
     gout = os.path.join(gridlib.BEH, "C15-gsa.out.ndjson")
     rc, out = vlib.gvh(["gsa", gout], bin=gridlib.BIN)
@@ -170,10 +210,19 @@ def run(tier, seed):
     per_file = []
     samples = []
     jobs = [(x, "tlc") for x in recs if x["faults"]]
+    margins = recs[0]["margins"]
+    if len(margins) < 6:
+        raise vlib.ToolError("vacuous: the specification's margin classes were not exported")
+    if not all(any(ft[0] == "intact" for ft in x["faults"]) for x, _ in jobs):
+        raise vlib.ToolError("vacuous: the intact file is not among the queried variants")
     if not q:
-        jobs.append((big_file_case(seed), "driver"))
+        big = big_file_case(seed)
+        big["margins"] = margins
+        big["faults"].insert(0, ["intact", 0, 0, 0, "", ""])
+        jobs.append((big, "driver"))
     for rec, source in jobs:
         tag = "f%03d" % rec["id"] if source == "tlc" else "big"
+        rec["faults"].sort(key=lambda ft: ft[0] != "intact")      # the undamaged file first: minimal reproductions
         summ, violating = gridlib.run_faults(rec, tag, stall=6.0 if source == "tlc" else 30.0)
         for k in totals:
             totals[k] += summ.get(k, 0)
@@ -183,10 +232,11 @@ def run(tier, seed):
             samples.append({"file": per_file[-1]["file"], "faults": rec["faults"][:3] + rec["faults"][-2:]})
     if totals["not_run"]:
         res.uncovered.append("%d fault(s) not run after repeated deaths of the child process" % totals["not_run"])
-    res.behaviours_replayed = (wsum["cases"] - len({f["id"] for f in wf_fails})) + totals["err"] + totals["ok_safe"] + gsum["files"]
-    res.evaluations = wsum["evaluations"] + gsum["evaluations"] + totals["evaluations"]
-    res.distinct_nontrivial = wsum["cases"] + totals["err"] + totals["violating"]
+    res.behaviours_replayed = (wsum["cases"] - len({f["id"] for f in wf_fails})) + totals["err"] + totals["ok_safe"] + gsum["files"] + psum["err"] + psum["ok"]
+    res.evaluations = wsum["evaluations"] + gsum["evaluations"] + totals["evaluations"] + psum["evaluations"]
+    res.distinct_nontrivial = wsum["cases"] + totals["err"] + totals["violating"] + psum["calls"]
     res.extra["wellformed"] = wsum
+    res.extra["plain_constructor"] = psum
     res.extra["gsa_vs_gsb"] = gsum
     res.extra["fault_outcomes"] = totals
     res.extra["fault_outcomes_per_file"] = per_file
@@ -238,6 +288,7 @@ def selftest(seed):
     p = subprocess.run([exe, "c15wf", inp, outp], cwd=vlib.VERIF, stdout=subprocess.PIPE, stderr=subprocess.STDOUT, text=True)
     a_ok = p.returncode == 2 and any(x.get("tool") for x in vlib.read_ndjson(outp))
     case = strip_case(next(x for x in recs if x["shipped"] == "geoid/test.geoid"))
+    case["margins"] = []          # the runner's three detection paths are tested here, not the code under test
     ok_fault = ["trunc", 363, 0, 0, "", ""]
     case["faults"] = [ok_fault, ["selftest_panic", 0, 0, 0, "", ""], ok_fault, ["selftest_abort", 0, 0, 0, "", ""], ok_fault,
                       ["selftest_hang", 0, 0, 0, "", ""], ok_fault]
